@@ -36,11 +36,23 @@ def build_tools():
     r = sh(['make', '-j%d' % NCPU], cwd=VERIF + '/coq')
     if r.returncode != 0: raise RuntimeError('Coq library build failed:\n' + (r.stdout + r.stderr)[-4000:])
 
-def lib_hash():
+def lib_hash(only=None):
     h = hashlib.sha256()
     for f in sorted(os.listdir(THEORIES)):
-        if f.endswith('.v'): h.update(f.encode()); h.update(open(THEORIES + '/' + f, 'rb').read())
+        if f.endswith('.v') and (only is None or f in only): h.update(f.encode()); h.update(open(THEORIES + '/' + f, 'rb').read())
     return h.hexdigest()
+
+def theory_closure(text):
+    """the library files a generated file depends on (its `From Glam Require Import` lines, transitively)"""
+    todo = [m for l in re.findall(r'From Glam Require Import ([^.]*)\.', text) for m in l.split()]; seen = set()
+    while todo:
+        m = todo.pop()
+        if m in seen: continue
+        seen.add(m)
+        try: t = open('%s/%s.v' % (THEORIES, m)).read()
+        except OSError: continue
+        todo += [x for l in re.findall(r'From Glam Require Import ([^.]*)\.', t) for x in l.split()]
+    return tuple(sorted(x + '.v' for x in seen))
 
 def translate(cfgs=ALL_CFGS):
     """Re-run the translator on /repo's working tree. Output files are rewritten only when their content changes."""
@@ -65,11 +77,11 @@ def coqc(path, extra=(), timeout=1200, limit=True):
     except subprocess.TimeoutExpired as e:
         return 124, '', 'coqc timeout after %ds' % timeout
 
-def compile_many(jobs, extra=(), timeout=3000, stop_on_error=False):
+def compile_many(jobs, extra=(), timeout=3000, stop_on_error=False, lib_only=None):
     """jobs: list of (path, [dep paths]). Compiles out-of-date files in dependency order, 16 at a time.
     A file is up to date when its .stamp equals sha(content, flags, library hash, stamps of deps).
     Returns {path: (rc, stdout, stderr)} for the files that were compiled (rc 0 entries included)."""
-    lh = lib_hash(); stamps = {}; results = {}; jobs = list(jobs); deps = {p: d for p, d in jobs}
+    lh = lib_hash(lib_only); stamps = {}; results = {}; jobs = list(jobs); deps = {p: d for p, d in jobs}
     def want(p):
         h = hashlib.sha256(); h.update(_sha(p).encode()); h.update(lh.encode()); h.update(' '.join(extra).encode())
         for d in deps.get(p, []):
@@ -112,7 +124,7 @@ def build_model():
     t0 = time.time()
     models = sorted(GEN + '/' + f for f in os.listdir(GEN) if re.fullmatch(r'Model\d+\.v', f))
     jobs = [(m, []) for m in models] + [(GEN + '/Table.v', models)]
-    res = compile_many(jobs)
+    res = compile_many(jobs, lib_only=('Base.v',))      # the generated model imports Base only
     bad = {p: r for p, r in res.items() if r[0] != 0}
     if bad:
         p, r = next(iter(bad.items())); raise RuntimeError('model does not compile: %s\n%s' % (p, (r[1] + r[2])[-3000:]))
@@ -243,7 +255,8 @@ class Lemma:
         if getattr(self, 'intstd', False) == 'concrete':
             return 'Lemma %s : %s.\nProof. intros O; destruct O; intros chk HZ HL; intros; intstd_eqs HZ; litstd_eqs HL. Timeout %d solve_zc ltac:(unlock_ints) ltac:(use_lits). all: first [reflexivity | exact I]. Qed.' % (self.name, self.statement(), LEMMA_TIMEOUT[0])
         if getattr(self, 'intstd', False):
-            return 'Lemma %s : %s.\nProof. intros O; destruct O; intros chk HZ HL; intros; intstd_eqs HZ; litstd_eqs HL. Timeout %d solve_z f32_pred f32_cmp f64_pred f64_cmp chk ltac:(unlock_ints) ltac:(use_lits). all: first [reflexivity | exact I]. Qed.' % (self.name, self.statement(), LEMMA_TIMEOUT[0])
+            tac = 'solve_ze' if getattr(self, 'raw_stmt', False) else 'solve_z'
+            return ('Lemma %s : %s.\nProof. intros O; destruct O; intros chk HZ HL; intros; intstd_eqs HZ; litstd_eqs HL. Timeout %d ' + tac + ' f32_pred f32_cmp f64_pred f64_cmp chk ltac:(unlock_ints) ltac:(use_lits). all: first [reflexivity | exact I]. Qed.') % (self.name, self.statement(), LEMMA_TIMEOUT[0])
         return 'Lemma %s : %s.\nProof. intros O; destruct O; intros. Timeout %d %s. all: reflexivity. Qed.' % (self.name, self.statement(), LEMMA_TIMEOUT[0], self.tactic)
 
 HDR = 'From Glam Require Import Base Spec.\nFrom Gen Require Import Table.\nFrom Coq Require Import ZArith List String Bool.\nImport ListNotations.\nOpen Scope Z_scope.\n'
@@ -285,7 +298,7 @@ def prove_files(dirpath, files, hdr=HDR, max_fail=12, deps_extra=(), extra=(), t
     tuple of all lemmas proved in the file.  Results are cached on (file text, library, Table) hashes.
     Returns (n_obligations, n_discharged, failures [(Lemma, error)], assumptions {file: text})."""
     os.makedirs(dirpath, exist_ok=True)
-    lh = lib_hash()
+    lh = lib_hash(theory_closure(hdr + footer))
     try: th = open(GEN + '/Table.stamp').read()
     except OSError: th = 'none'
     keep = set(files)
